@@ -63,6 +63,7 @@ class TriggerContext:
         self.__ts: int = time_ns()
         self.__id: str = str(uuid.uuid4())
         self.__frame_collector: Optional[FrameCollector] = None
+        self.__conditions: Dict[tuple, any] = {}
         self.var_cache = VariableCacheProvider()
         self.callbacks: List[ActionCallback] = []
         self.vars: Dict[str: Variable] = {}
@@ -166,6 +167,24 @@ class TriggerContext:
         names = dict(getattr(self.__frame, 'f_globals', {}))
         names.update(local_names)
         return eval(expression, names, local_names)
+
+    def evaluate_condition(self, tracepoint_id: str, condition: str) -> any:
+        """
+        Evaluate the condition of a tracepoint, once for this hit.
+
+        A tracepoint can have several actions (snapshot, log, metric, span), each is given the condition. A condition
+        can have a memory - a sampler (every third call, random() < p), 'the first N per key' - and is asked once per
+        hit: what it says goes for all the actions of the tracepoint. Asked once per action, one hit would be accepted
+        for the snapshot and rejected for the metric.
+
+        :param tracepoint_id: the id of the tracepoint
+        :param condition: the condition
+        :return: the result of the condition, or a FailedExpression
+        """
+        key = (tracepoint_id, condition)
+        if key not in self.__conditions:
+            self.__conditions[key] = self.evaluate_expression(condition)
+        return self.__conditions[key]
 
     def evaluate_expression(self, expression: str) -> any:
         """
